@@ -60,6 +60,7 @@ struct World {
   mc::Shared<int> gate_open{0};
   mc::Shared<int> gates_started{0};
   mc::Shared<int> progress{0}; // submission steps completed by the program runner
+  mc::Shared<int> settled{0}; // the runner's gate tasks sit in their workers; a racing canceller may go ahead
   mc::Shared<int> submitter{-1}; // modelled thread id of the program runner
   mc::Shared<const std::atomic<bool>*> cflag{nullptr}; // canceled_ of the set under test (cancel harness only)
   mc::Shared<int> canceled_seen{0};
@@ -473,6 +474,7 @@ void cancel_runner(SetT& set, dispenso::ThreadPool& pool, World& w, const Cancel
   w.submitter.set(mc_self_id());
   submit_set_gates(set, pool, w, (int)cfg.g);
   settle_gates(pool, w);
+  w.settled.set(1);
   int len = (int)cfg.prog.size();
   for (int i = 0; i <= len; i++) {
     if (self_cancel && i == cfg.pos) {
@@ -548,7 +550,7 @@ MC_HARNESS(cancel) {
         if (src == "t1") {
           MC_CHECK(is_cts(set), "harness: cancel() from a second thread needs a ConcurrentTaskSet");
           mc::spawn([&] {
-            mc::block_until([&] { return w.progress.get() >= cfg.pos; });
+            mc::block_until([&] { return w.settled.get() && w.progress.get() >= cfg.pos; });
             set.cancel();
             mc::cover("cancel_by_second_thread");
           });
@@ -581,7 +583,7 @@ MC_HARNESS(cancel) {
         else
           top.schedule(runner, dispenso::ForceQueuingTag());
         if (racing) {
-          mc::block_until([&] { return w.progress.get() >= cfg.pos && w.cflag.get() != nullptr; });
+          mc::block_until([&] { return w.settled.get() && w.progress.get() >= cfg.pos; });
           top.cancel();
           mc::cover("cancel_by_t0_racing");
         }
